@@ -76,6 +76,10 @@ def gen(ctx):
         if solver == "pi":
             c["max_eval"], c["reset"] = 5, False
         out.append(c)
+        # the same experiment in the USUAL order of a fresh process: the problem is built before 64-bit mode is switched on (its
+        # tables are single precision), in the interrupted run, in every restoring process and in the uninterrupted run alike
+        if prob["kind"] != "forest":
+            out.append(dict(c, x64_first=False, seed=sub + 1, cuts=[rng.choice([1, 2, 3])], route=rng.choice(["restore", "restore", "load"])))
     return out
 
 
@@ -86,13 +90,14 @@ def experiment(ctx, c, idx):
     ck = dict(cfg, checkpoint_dir=d, checkpoint_frequency=c["f"], max_checkpoints=c["m"], enable_async_checkpointing=c["async"])
     legs = [c["cuts"][0]] + [b - a for a, b in zip(c["cuts"], c["cuts"][1:])] + [c["total"] - c["cuts"][-1]]
     out = {"legs": legs}
-    a = core.run_worker(ctx, [{"kind": "ckpt_run", "problem": c["spec"], "solver": c["solver"], "config": ck, "ops": [["solve", legs[0]]]}])[0]
+    xf = {"x64_first": c.get("x64_first", True)}
+    a = core.run_worker(ctx, [dict({"kind": "ckpt_run", "problem": c["spec"], "solver": c["solver"], "config": ck, "ops": [["solve", legs[0]]]}, **xf)])[0]
     out["A"] = a
     if "error" in a:
         return out
     bs = []
     for leg in legs[1:]:
-        job = {"kind": "ckpt_restore", "solver": c["solver"], "dir": d, "route": c["route"], "ops": [["solve", leg]]}
+        job = dict({"kind": "ckpt_restore", "solver": c["solver"], "dir": d, "route": c["route"], "ops": [["solve", leg]]}, **xf)
         if c["route"] == "load":
             job.update({"problem": c["spec"], "config": ck})
         b = core.run_worker(ctx, [job])[0]
@@ -100,7 +105,7 @@ def experiment(ctx, c, idx):
         if "error" in b or b.get("raised"):
             break
     out["B"] = bs
-    out["C"] = core.run_worker(ctx, [{"kind": "solve_ops", "problem": c["spec"], "solver": c["solver"], "config": cfg, "ops": [["solve", c["total"]]]}])[0]
+    out["C"] = core.run_worker(ctx, [dict({"kind": "solve_ops", "problem": c["spec"], "solver": c["solver"], "config": cfg, "ops": [["solve", c["total"]]]}, **xf)])[0]
     return out
 
 
